@@ -15,6 +15,8 @@ import (
 	storetypes "cosmossdk.io/store/types"
 
 	sdk "github.com/cosmos/cosmos-sdk/types"
+	authtypes "github.com/cosmos/cosmos-sdk/x/auth/types"
+	govtypes "github.com/cosmos/cosmos-sdk/x/gov/types"
 	stakingtypes "github.com/cosmos/cosmos-sdk/x/staking/types"
 
 	bandtesting "github.com/bandprotocol/chain/v3/testing"
@@ -33,6 +35,7 @@ type Cfg struct {
 	Depth       int    `json:"depth"`
 	Voters      int    `json:"voters"`
 	Votes       []int  `json:"votes"` // indices into voteMenu
+	DenomEvent  bool   `json:"denom_event"`
 }
 
 const maxI64 = int64(^uint64(0) >> 1)
@@ -118,6 +121,9 @@ func (s *spec) Enabled(w *engine.World, ctx sdk.Context, mm engine.Model, depth 
 		evs = append(evs, fmt.Sprintf("stake:%d:1", v), fmt.Sprintf("unstake:%d:1", v), fmt.Sprintf("unstake:%d:all", v),
 			fmt.Sprintf("delegate:%d:2", v), fmt.Sprintf("undelegate:%d:1", v), fmt.Sprintf("undelegate:%d:2", v))
 	}
+	if s.cfg.DenomEvent {
+		evs = append(evs, "denoms") // governance removes / restores the restaked denom: total power drops without any withdrawal
+	}
 	evs = append(evs, "block")
 	return evs
 }
@@ -178,6 +184,15 @@ func (s *spec) Step(w *engine.World, ctx sdk.Context, mm engine.Model, ev string
 		} else {
 			st.Saw("vote-rejected:" + map[bool]string{true: "over-power", false: "within-power"}[sum.Cmp(power) > 0])
 		}
+	case "denoms":
+		rp := rk.GetParams(ctx)
+		if len(rp.AllowedDenoms) > 0 {
+			rp.AllowedDenoms = nil
+		} else {
+			rp.AllowedDenoms = []string{"uband"}
+		}
+		res := w.Tx(ctx, 0, restaketypes.NewMsgUpdateParams(tsshAuthority, rp))
+		st.Outcome = "denoms:" + res.ErrName()
 	case "stake", "unstake":
 		v, _ := strconv.Atoi(parts[1])
 		addr := voters()[v].Address
@@ -257,9 +272,14 @@ func (s *spec) Step(w *engine.World, ctx sdk.Context, mm engine.Model, ev string
 		if l := lockOf(v); l.Cmp(sum) != 0 {
 			st.Violate("lock-differs-from-vote-sum", "voter %d: lock %s, integer sum of standing vote %s (%v)", v, l, sum, standing)
 		}
-		if tp := totalPower(v); tp.Cmp(sum) < 0 {
-			fp := "power-below-standing-vote:after-" + parts[0]
-			st.Violate(fp, "voter %d: total power %s < standing vote sum %s after %s", v, tp, sum, ev)
+		// locked against withdrawal: an accepted unstake / undelegation by the voter never leaves its power below
+		// its standing vote (power lost for external reasons, e.g. a denom leaving the allowed list, is not a withdrawal)
+		if parts[0] == "unstake" || parts[0] == "undelegate" {
+			if vv, _ := strconv.Atoi(parts[1]); vv == v && strings.HasSuffix(st.Outcome, ":ok") {
+				if tp := totalPower(v); tp.Cmp(sum) < 0 {
+					st.Violate("power-withdrawn-below-standing-vote:"+parts[0], "voter %d: total power %s < standing vote sum %s after accepted %s", v, tp, sum, ev)
+				}
+			}
 		}
 	}
 	// each signal's total power equals the sum of all standing votes for it
@@ -368,6 +388,7 @@ func configs(quick bool) []Cfg {
 		return []Cfg{
 			{Step: 2, MinInterval: 10, MaxInterval: 60, MaxFeeds: 3, UpdateEvery: 2, Depth: 5, Voters: 2, Votes: base},
 			{Step: 3, MinInterval: 20, MaxInterval: 50, MaxFeeds: 1, UpdateEvery: 1, Depth: 5, Voters: 2, Votes: []int{0, 1, 2, 3, 6}},
+			{Step: 2, MinInterval: 10, MaxInterval: 60, MaxFeeds: 3, UpdateEvery: 2, Depth: 5, Voters: 1, Votes: []int{0, 1, 2, 4, 6}, DenomEvent: true},
 		}
 	}
 	all := make([]int, len(voteMenu))
@@ -378,21 +399,24 @@ func configs(quick bool) []Cfg {
 		{Step: 2, MinInterval: 10, MaxInterval: 60, MaxFeeds: 3, UpdateEvery: 2, Depth: 6, Voters: 2, Votes: all},
 		{Step: 3, MinInterval: 20, MaxInterval: 50, MaxFeeds: 1, UpdateEvery: 1, Depth: 6, Voters: 2, Votes: []int{0, 1, 2, 3, 6, 7}},
 		{Step: 1, MinInterval: 1, MaxInterval: 7, MaxFeeds: 2, UpdateEvery: 3, Depth: 6, Voters: 2, Votes: []int{0, 1, 2, 3, 4, 5, 6, 8}},
+		{Step: 2, MinInterval: 10, MaxInterval: 60, MaxFeeds: 3, UpdateEvery: 2, Depth: 7, Voters: 2, Votes: []int{0, 1, 2, 4, 6}, DenomEvent: true},
 	}
 }
 
 var _ = sdkmath.NewInt
 
+var tsshAuthority = authtypes.NewModuleAddress(govtypes.ModuleName).String()
+
 func init() {
 	engine.Register(&engine.Check{
 		ID: "C07",
 		Run: func(r *engine.Run) {
-			r.Bound = "2 voters (restaked 5 and 3 uband), signals {A,B,C}, vote menu incl. empty, re-votes, over-power and int64-wrapping sums; stake/unstake/delegate/undelegate; feed-update blocks; depth 5 (quick) / 6 (thorough); 2-3 parameter tuples"
+			r.Bound = "2 voters (restaked 5 and 3 uband), signals {A,B,C}, vote menu incl. empty, re-votes, over-power and int64-wrapping sums; stake/unstake/delegate/undelegate; the restaked denom removed from / restored to the allowed list (power drops without a withdrawal); feed-update blocks; depth 5 (quick) / 6 (thorough); 2-3 parameter tuples"
 			r.Assumptions = []string{
 				"a voter's total power at cast time is read from the restake keeper (its correctness is C16's subject)",
 				"validators have share/token rate making delegations of 1-2 uband exact",
 			}
-			r.Required = []string{"vote:ok", "vote-rejected:over-power", "block:update", "feeds:1", "unstake:ok", "undelegate:ok"}
+			r.Required = []string{"vote:ok", "vote-rejected:over-power", "block:update", "feeds:1", "unstake:ok", "undelegate:ok", "denoms:ok"}
 			deadline := r.Deadline(4*time.Minute, 40*time.Minute)
 			for i, c := range configs(r.Quick()) {
 				sr := engine.Search(&spec{cfg: c}, engine.SearchOpts{Depth: c.Depth, Deadline: deadline})
